@@ -30,6 +30,12 @@ def run(ctx):
                 # exhaustive: Store of a (shifted) row, then Set of a bit already present on a column
                 # no Set/import wrote - existence must record the column (seed C15-3)
                 ("C15_store", "bfs", None, 1)]
+    # row-level algebra over rows whose segment sets differ (spec/RowAlgebra.tla): every pair of rows
+    # over 3 shards x 1 column and 2 shards x 2 columns (a segment may be present and empty) x
+    # Union/Merge/Intersect/Difference/Xor, exhaustive in both tiers; 4 shards for the asymmetric ops
+    for cfg in (["C15_row_3x1", "C15_row_2x2"] + (["C15_row_4x1"] if thorough else [])):
+        r = ctx.generate("RowAlgebra", cfg, mode="bfs", timeout=900, workers=4)
+        ctx.drive("bind/queryb", "TestC15Row", beh=r.behaviours, label="C15/" + cfg, timeout=1200)
     res = qcommon.generate_parallel(ctx, jobs)
     for cfg, _, _, _ in jobs:
         beh = qcommon.merge(ctx, res[cfg], cfg)
@@ -43,6 +49,8 @@ def run(ctx):
                 "(Set, Clear, ClearRow, Store, bulk import) chosen by TLC (seeded simulation; BFS over all datasets of two "
                 "rows x all programs of 3 steps in the thorough tier); every step is one evaluation of the expression on "
                 "top of the stack plus its Count against the specification's value; distinct = distinct behaviour x profile")
+    ctx.rule += ("; row family: one behaviour = one binary Row operation on one pair of multi-shard rows (every pair enumerated), "
+                 "columns, Count and unchanged operands compared under 3 column refinements")
     ctx.trusted += ["PQL rendering and refinement tables (harness/bind/queryb/render.go, env.go)",
                     "github.com/pilosa/pilosa/test in-process cluster helpers"]
     ctx.assumptions += ["time-range ends are aligned to the quantum's finest unit",
